@@ -12,7 +12,7 @@ RULE = ("contracts on inverse_mod / square_root_mod_prime / jacobi evaluated aga
         "non-trivial key = (function, modulus class, argument class) plus the modulus itself for small moduli")
 ASSUMPTIONS = ["CPython big-int arithmetic and pow()", "reference Tonelli-Shanks / Euler criterion / egcd in vf/ref/nt.py (self-tested)",
                "random large primes certified by reference Miller-Rabin (12 fixed + 16 random bases)"]
-REQUIRED = {"quick": ["jacobi.huge_composite", "reentrant_calls", "inv.small", "inv.curve", "inv.big", "sqrt.3mod4.residue", "sqrt.3mod4.nonresidue",
+REQUIRED = {"quick": ["sqrt.strlimit", "jacobi.huge_composite", "reentrant_calls", "inv.small", "inv.curve", "inv.big", "sqrt.3mod4.residue", "sqrt.3mod4.nonresidue",
                       "sqrt.5mod8.residue", "sqrt.5mod8.nonresidue", "sqrt.1mod8.residue", "sqrt.1mod8.nonresidue",
                       "sqrt.zero", "jacobi.small", "jacobi.composite_big"]}
 EXHAUSTIVE = {"quick": ["inverse_mod: all m in [2,200], a in [-2m,3m] coprime", "sqrt: every prime p<2000, every a",
@@ -48,6 +48,7 @@ def shards(tier, seed):
     for i, ks in enumerate(([66, 129, 192], [130, 160, 256], [193, 224, 255]) if q else ([66, 96, 129], [130, 160, 192], [193, 224, 255], [256, 257, 320], [384, 448], [512, 521])):
         out.append(("sqrt_sparse_primes_%d" % i, dict(kind="sqrt_sparse", ks=ks)))
     out.append(("jac_huge_composite", dict(kind="jac_huge", count=30 if q else 300)))
+    out.append(("sqrt_beyond_str_limit", dict(kind="sqrt_strlimit", bits=2200 if q else 2600)))
     for i in range(2 if q else 6):
         out.append(("concurrent_%d" % i, dict(kind="concurrent", runs=40 if q else 400)))
     out.append(("optimised_interpreter", dict(kind="pyopt", pmax=400 if q else 2000)))
@@ -314,6 +315,72 @@ def run(ctx, name, kind, **kw):
                 cand = cand[:6]
             for a in cand:
                 check_sqrt(ctx, a, p, extra=nm)
+    elif kind == "sqrt_strlimit":
+        # moduli with more decimal digits than the interpreter converts (sys.set_int_max_str_digits: 4300 by default, 640 at its lowest - what
+        # PYTHONINTMAXSTRDIGITS=640 gives an application): residues still get their root, non-residues still get SquareRootError, inverses
+        # and Jacobi symbols are unaffected.  The limit is lowered around the library call only; nothing here formats these integers in decimal.
+        import sys
+
+        def limited(fn, *a_):
+            old = sys.get_int_max_str_digits()
+            sys.set_int_max_str_digits(640)
+            try:
+                return ("ok", fn(*a_))
+            except NT.SquareRootError:
+                return ("sqrt_error", None)
+            except Exception as e_:
+                return ("exc", "%s: %s" % (type(e_).__name__, str(e_)[:120]))
+            finally:
+                sys.set_int_max_str_digits(old)
+        small = nt.primes_below(2000)
+        mods = [((1 << 2203) - 1, "M2203"), ((1 << 2281) - 1, "M2281")]
+        for want in (5, 1):
+            bits = kw["bits"]
+            while True:
+                c_ = rng.getrandbits(bits) | (1 << (bits - 1))
+                c_ = c_ - (c_ % 8) + want
+                if any(c_ % q_ == 0 for q_ in small):
+                    continue
+                if pow(2, c_ - 1, c_) == 1 and nt.is_prime(c_, 2, rng):
+                    break
+            mods.append((c_, "%dbit_%dmod8" % (bits, want)))
+        for p_, nm in mods:
+            t_ = rng.randrange(2, p_)
+            res = t_ * t_ % p_
+            non = next(a_ for a_ in (p_ - 1, 2, 3, 5, 7, 11, 13, 17, 19, 23) if pow(a_, (p_ - 1) // 2, p_) == p_ - 1)
+            for a_, isres in ((res, True), (non, False), (4, True)):
+                if nm.endswith("1mod8") and a_ == res:
+                    continue          # (the polynomial branch on 2000+ bits takes tens of seconds per root: one residue, 4, is enough there)
+                out_ = limited(NT.square_root_mod_prime, a_, p_)
+                ctx.case("sqrt.strlimit", key="%s|%s" % (nm, "residue" if isres else "nonresidue"), sample=dict(fn="square_root_mod_prime", modulus=nm, a_hex=hex(a_)[:40], residue=isres, outcome=out_[0], int_max_str_digits=640))
+                wit = dict(a=hex(a_), p=hex(p_), int_max_str_digits=640)
+                rep = "import sys\nfrom ecdsa import numbertheory as NT\nsys.set_int_max_str_digits(640)\ntry:\n    r = NT.square_root_mod_prime(%s, %s)\n    print('library returned a root; r*r == a:', r * r %% %s == %s)\nexcept Exception as e:\n    print('library raised', type(e).__name__, str(e)[:100])\n" % (hex(a_), hex(p_), hex(p_), hex(a_))
+                if out_[0] == "exc":
+                    ctx.violation("sqrt_raises_other", "square_root_mod_prime(a, p) for a %d-bit prime p (%s) and a %s a, with the int-to-str limit at 640 digits, raised %s" % (p_.bit_length(), nm, "residue" if isres else "non-residue", out_[1]), wit, rep)
+                elif isres:
+                    r_ = out_[1]
+                    ctx.check(out_[0] == "ok" and 0 <= r_ < p_ and (r_ * r_ - a_) % p_ == 0, "sqrt_wrong" if out_[0] == "ok" else "sqrt_rejects_residue", "square_root_mod_prime on the %d-bit prime %s: %s for a residue" % (p_.bit_length(), nm, out_[0]), wit, rep)
+                else:
+                    ctx.check(out_[0] == "sqrt_error", "sqrt_value_for_nonresidue", "square_root_mod_prime on the %d-bit prime %s returned a value for a non-residue" % (p_.bit_length(), nm), wit, rep)
+            # inverse and Jacobi symbol next to it
+            iv = limited(NT.inverse_mod, t_, p_)
+            ctx.case("sqrt.strlimit", key="%s|inverse" % nm)
+            ctx.check(iv[0] == "ok" and 0 <= iv[1] < p_ and iv[1] * t_ % p_ == 1, "inverse_wrong", "inverse_mod modulo the %d-bit prime %s with the int-to-str limit at 640 digits: %s" % (p_.bit_length(), nm, iv[0] if iv[0] != "exc" else iv[1]), dict(a=hex(t_), m=hex(p_)))
+            jc = limited(NT.jacobi, non, p_)
+            ctx.case("sqrt.strlimit", key="%s|jacobi" % nm)
+            ctx.check(jc == ("ok", -1), "jacobi_wrong", "jacobi(non-residue, %s) with the int-to-str limit at 640 digits: %r" % (nm, jc[0] if jc[0] != "ok" else jc[1]), dict(a=hex(non), n=hex(p_)))
+        # beyond the DEFAULT limit (4300 digits): the Mersenne prime 2^19937 - 1 (3 mod 4, so -1 is a non-residue)
+        p_ = (1 << 19937) - 1
+        try:
+            NT.square_root_mod_prime(p_ - 1, p_)
+            out_ = "returned a value"
+        except NT.SquareRootError:
+            out_ = None
+        except Exception as e_:
+            out_ = "raised %s: %s" % (type(e_).__name__, str(e_)[:100])
+        ctx.case("sqrt.strlimit", key="M19937|nonresidue|default_limit")
+        ctx.check(out_ is None, "sqrt_raises_other" if out_ and out_.startswith("raised") else "sqrt_value_for_nonresidue", "square_root_mod_prime(p - 1, p) for p = 2^19937 - 1 (6002 decimal digits, default int-to-str limit) %s instead of raising SquareRootError" % out_, dict(a="2^19937 - 2", p="2^19937 - 1"),
+                  "from ecdsa import numbertheory as NT\np = (1 << 19937) - 1\ntry:\n    NT.square_root_mod_prime(p - 1, p)\nexcept Exception as e:\n    print('library raised', type(e).__name__, str(e)[:100])\n")
     elif kind == "sqrt_huge":
         # primes far above any curve's field (1800..3072 bits) in each residue class mod 8, dense bit patterns: window sizes and table
         # bounds inside an exponentiation are functions of the exponent's LENGTH
